@@ -150,14 +150,25 @@ def execLine (ws : List String) : String :=
     | _, _ => "bad-op"
   | _ => "bad-op"
 
+/-- number of `goto` / `goto *&&L` steps among the first `n` steps of the abstract machine (evidence only:
+    how many of the generated jumps are actually executed) -/
+def jumpCount (ω : Nat → Val) (fb : SStmt) : Nat → SStmt → Cont → SState → Nat → Nat
+  | 0, _, _, _, acc => acc
+  | n + 1, s, k, σ, acc =>
+    let acc := acc + (match s with | .goto_ _ => 1 | .gotoVal _ => 1 | _ => 0)
+    match Spec.Ctl.step ω fb s k σ with
+    | .next s' k' σ' => jumpCount ω fb n s' k' σ' acc
+    | _ => acc
+
 /-- the small-step abstract machine for all statements (goto, computed goto, nested case labels):
-    `fuel vals sexpr` → `valid=<constraints hold> gotoval=<has computed goto> <result>` -/
+    `fuel vals sexpr` → `valid=<constraints hold> gotoval=<has computed goto> jumps=<gotos executed> <result>` -/
 def execgLine (ws : List String) : String :=
   match ws with
   | fuel :: vals :: rest =>
     match fuel.toNat?, readS rest with
     | some fuel, some s =>
-      s!"valid={validG s} gotoval={hasGotoVal s} " ++ showRes (execG (oracleOf vals) fuel s ⟨0, []⟩)
+      s!"valid={validG s} gotoval={hasGotoVal s} jumps={jumpCount (oracleOf vals) s fuel s .stop ⟨0, []⟩ 0} " ++
+        showRes (execG (oracleOf vals) fuel s ⟨0, []⟩)
     | _, _ => "bad-op"
   | _ => "bad-op"
 
